@@ -108,6 +108,10 @@ def shard_seed(seed, pid, k):
     return int.from_bytes(h[:8], "big")
 
 
+class _StopSearch(BaseException):
+    """Raised inside the property body to end Hypothesis' shrinking once its budget is spent."""
+
+
 def bucket_of(v):
     return (v.sub, v.details.get("exception"), v.details.get("frame"))
 
@@ -145,10 +149,8 @@ def drive(prop, tier, hseed, n_examples, stats, wall, strategy=None, check=None,
             return
         key = None
         if st["first_fail"] is not None and time.time() - st["first_fail"] > shrink_budget:
-            # budgeted shrink: candidates not seen failing before are no longer evaluated
-            key = case_digest(case)
-            if key not in st["seen"]:
-                return
+            # budgeted shrink: abandon the engine, keep the smallest failing case seen so far
+            raise _StopSearch()
         try:
             check(case, stats)
         except Violation as v:
@@ -160,12 +162,17 @@ def drive(prop, tier, hseed, n_examples, stats, wall, strategy=None, check=None,
                 st["first_fail"] = time.time()
                 stats.frozen = True
             st["seen"].add(key)
-            st["last"] = (case, v)
+            size = len(json.dumps(case, default=repr))
+            if st["last"] is None or size <= st["last_size"]:
+                st["last"] = (case, v)
+                st["last_size"] = size
             raise
 
     try:
         test()
     except Violation:
+        pass
+    except _StopSearch:
         pass
     except BaseException as e:  # hypothesis may wrap (Flaky etc.)
         if st["last"] is None:
@@ -453,8 +460,13 @@ def main(argv=None):
     try:
         how = validate_evidence(ev)
     except BaseException as e:  # noqa: BLE001
-        print(f"HARNESS ERROR: evidence does not validate: {e}")
-        return 2
+        if violations:
+            # a violation stops the search early, so coverage counts may be below the
+            # schema's minima; the violation report stands
+            how = f"INVALID ({str(e)[:80]})"
+        else:
+            print(f"HARNESS ERROR: evidence does not validate: {str(e)[:300]}")
+            return 2
     os.makedirs(os.path.join(OUT, "evidence"), exist_ok=True)
     with open(os.path.join(OUT, "evidence", f"{pid}.json"), "w") as fh:
         json.dump(ev, fh, indent=1, sort_keys=True, default=repr)
